@@ -5,7 +5,8 @@ EXTENDS Mem, Json, IOUtils
 VARIABLE l
 Log == ndJsonDeserialize(IOEnv.TRACE)
 NB(t) == CASE t \in {"i8", "u8"} -> 1 [] t \in {"i16", "u16"} -> 2 [] t \in {"i32", "u32", "f32"} -> 4 [] OTHER -> 8
-Changed(r) == LET n == r[1] + 256 * r[2] IN {<<r[3 * k] + 256 * r[3 * k + 1], r[3 * k + 2]>> : k \in 1 .. (IF n < 600 THEN n ELSE 600)}
+Changed(r) == LET n == r[1] + 256 * r[2]  cap == (Len(r) - 2) \div 3  m == IF n < 600 THEN n ELSE 600        \* never index past the recorded row
+              IN {<<r[3 * k] + 256 * r[3 * k + 1], r[3 * k + 2]>> : k \in 1 .. (IF m < cap THEN m ELSE cap)}
 AlignOf(arch, w) == IF arch = "emulated" THEN 1 ELSE w
 IsAligned(op) == op \in {"store_aligned", "xstore_aligned", "store_tag_a", "store_as_a", "load_aligned", "xload_aligned", "load_tag_a", "load_as_a",
                          "batch_load_tag_a", "bool_store_aligned", "bool_load_aligned"}
